@@ -258,6 +258,11 @@ SQL_ORDER = (
     ("chain", ("self",)),
     ("join", ("K",), None, False),
     ("join", ("K",), None, True),
+    ("chain", ("Y", S((R("c"), ASC)))),
+    ("chain", ("Y", S((R("c"), ASC))), True),
+    ("join", ("K", S((R("d"), ASC))), None, False),
+    ("join", ("K", S((R("d"), ASC))), None, True),
+    ("chain", ("Y", S((R("c"), ASC)), ("slice", 0, 2))),
     ("mat", "m1"),
 )
 SQL_ORDER_SMALL = (
@@ -290,6 +295,8 @@ def multi_world():
         LeafSpec("E1", "e1", ABC, (), min_rows=0, max_rows=0),
         LeafSpec("D1", "e1", ABC, (), special="doomed"),
         LeafSpec("DS", "s", ABC, (), special="doomed"),
+        LeafSpec("I1", "e1", (), ((),), special="identity"),
+        LeafSpec("IS", "s", (), ((),), special="identity"),
     )
     return World(engines=(("s", "sql"), ("e1", "it"), ("e2", "it")), leaves=leaves)
 
@@ -324,9 +331,13 @@ MULTI_PLAIN = (
     ("calc", "y", C_ONLY_SQL),
     ("calc", "y", C_ONLY_IT),
     S((C_ONLY_IT, ASC)),
+    ("calc", "y", ("add", C_ONLY_IT, L(1))),
+    ("calc", "y", ("add", C_ONLY_SQL, L(1))),
+    ("sel", ("gt", ("add", C_ONLY_IT, L(1)), L(0))),
 )
 FLAGSETS = ((True, False, False), (True, True, False), (True, False, True), (False, True, False), (False, False, True))
 MULTI_PE_OPS = (
+    ("calc", "w", ("add", C_ONLY_SQL, L(1))),
     ("calc", "z", A_PLUS_B),
     ("proj", ("a",)),
     ("sel", P_B_EQ_1),
